@@ -201,7 +201,7 @@ int main(int argc, char **argv) {
   o.note("C04 tier=" + std::string(argv[1]) + " seed=" + argv[2] + (tie_only ? " tie-only" : ""));
 
   // 1. Quantizer / Dequantizer
-  int n1 = thorough ? 40000 : 3000;
+  int n1 = thorough ? 200000 : 12000;
   for (int i = 0; i < n1; i++) {
     int q = G.bits(); int32_t maxq = (int32_t)((1u << q) - 1);
     if (r.chance(3)) maxq = (int32_t)r.range(-2, 2);
@@ -233,7 +233,7 @@ int main(int argc, char **argv) {
   }
 
   // 2. ComputeParameters including NaN/Inf and overflowing extents
-  int n2 = thorough ? 6000 : 600;
+  int n2 = thorough ? 30000 : 2500;
   for (int i = 0; i < n2; i++) {
     int nc = (int)r.range(1, 4), n = (int)r.range(1, 12), q = G.bits();
     if (r.chance(4)) q = (int)r.range(-1, 33);
@@ -244,8 +244,15 @@ int main(int argc, char **argv) {
     compute_case(o, q, nc, flat);
   }
 
+  // an attribute without values: ComputeParameters must fail (fix of D12), for every component count / bit count
+  for (int nc = 1; nc <= 4; nc++) for (int q : {1, 11, 30, 0, 31}) {
+    compute_case(o, q, nc, {});
+    std::vector<uint32_t> no_ids;
+    transform_case(o, 0, q, nc, {}, 0.f, no_ids, {});
+  }
+
   // 3. whole transform, automatic and explicit parameters, with .5-boundary values from the parameters
-  int n3 = thorough ? 5000 : 450;
+  int n3 = thorough ? 40000 : 3000;
   for (int i = 0; i < n3; i++) {
     int nc = (int)r.range(1, 4), n = (int)r.range(1, 14), q = (i < 60) ? 1 + (i % 30) : G.bits();
     int style = r.chance(15) ? 3 : (r.chance(25) ? 2 : -1);
@@ -289,7 +296,7 @@ int main(int argc, char **argv) {
   }
 
   // 4. arbitrary parameter blocks
-  int n4 = thorough ? 4000 : 400;
+  int n4 = thorough ? 20000 : 2000;
   for (int i = 0; i < n4; i++) {
     int nc = (int)r.range(1, 4);
     size_t len = 4 * (size_t)nc + 5;
@@ -300,8 +307,8 @@ int main(int argc, char **argv) {
   }
 
   // 5. end to end on the real Encoder / Decoder
-  int n5 = thorough ? 1600 : 130;
-  if (tie_only) n5 = thorough ? 200 : 24;
+  int n5 = thorough ? 8000 : 500;
+  if (tie_only) n5 = thorough ? 400 : 40;
   for (int i = 0; i < n5; i++) {
     int method = i % 4;
     int q = (int)r.range(1, 22);
